@@ -75,11 +75,11 @@ class Ctx:
 
     # ---------------------------------------------------------------- role J / G
     def judge(self, module: str, traces: list, *, label: str = "", shards: int = 16, timeout: int = 7200,
-              cfg_extra: str = "", env=None, xmx: str = "3g", sample: int = 1):
+              cfg_extra: str = "", env=None, xmx: str = "3g", sample: int = 1, mode: str = "exists"):
         if not traces:
             return None
         v = trace.validate(module, traces, workdir=self.workdir, shards=shards, timeout=timeout,
-                           cfg_extra=cfg_extra, env=env, xmx=xmx)
+                           cfg_extra=cfg_extra, env=env, xmx=xmx, mode=mode)
         self.states += v.states
         self.transitions += v.transitions
         self.traces_validated += v.n_traces
